@@ -169,7 +169,12 @@ fn lex_block_string(lexer: &mut Lexer<'_, TokenKind>) -> bool {
                 return true;
             }
             BlockStringToken::EscapedTripleQuote | BlockStringToken::Other => {}
-            BlockStringToken::Error => unreachable!(),
+            BlockStringToken::Error => {
+                // A character that `Other` does not cover (a control character or one
+                // above U+FFFF): report it like in a quoted string instead of panicking.
+                lexer.extras.error_token = Some(TokenKind::ErrorUnsupportedStringCharacter);
+                return false;
+            }
         }
     }
     lexer.extras.error_token = Some(TokenKind::ErrorUnterminatedBlockString);
